@@ -101,7 +101,7 @@ int find_user_by_ip(uint32_t ip)
 		if (users[i].active &&
 			users[i].authenticated &&
 			!users[i].disabled &&
-			users[i].last_pkt + 60 > time(NULL) &&
+			users[i].last_pkt + 60 >= time(NULL) &&
 			ip == users[i].tun_ip) {
 			ret = i;
 			break;
@@ -125,7 +125,7 @@ int all_users_waiting_to_send(void)
 	now = time(NULL);
 	for (i = 0; i < usercount; i++) {
 		if (users[i].active && !users[i].disabled &&
-			users[i].last_pkt + 60 > now &&
+			users[i].last_pkt + 60 >= now &&
 			((users[i].conn == CONN_RAW_UDP) ||
 			((users[i].conn == CONN_DNS_NULL)
 #ifdef OUTPACKETQ_LEN
